@@ -1,16 +1,20 @@
 (* C04, second half: several query generators of ONE engine, suspended at the same time.
 
    PQ q = the cells of the generator in slot q (the variables of its query and the cells it allocates),
-   pairwise disjoint.  For EVERY sequence of next / close / drain operations on the slots and every slot q:
-   what is observed on q, the generator left in q and q's part of the heap are those of running the
-   operations on q alone (the other generators are never advanced) on q's part of the heap.
-   The database is not written by these operations (the model's clause bodies only read: calls and =),
-   so this is the read-only statement of the property text. *)
+   pairwise disjoint.  Clause bodies may write the fact store (asserta / assertz / retract / retractall), so
+   generators of one engine can influence each other through the store - and through nothing else:
+   K = a set of keys (name, arity).  For EVERY sequence of next / close / drain operations on the slots and every slot q:
+   if every step on slot q touches (reads or writes) only keys in K and every step on another slot writes only keys
+   outside K (foot_ok, read off the logs of the steps of the run), then what is observed on q, the generator left in q
+   and q's part of the heap are those of running the operations on q alone (the other generators are never advanced) on
+   q's part of the heap, and the fact stores of the two runs agree on K.
+   Read-only queries are the special case in which no step writes at all (nowrite; K = all keys).
+   Without the condition the statement is false (SlotsExamples.v: a reader of p/1 next to assertz(p(b))). *)
 From Coq Require Import String.
 From Coq Require Import List Arith Bool Lia ZArith.
 Import ListNotations.
-From YP Require Import Base.Str Term.Term Unify.Unify Engine.Deref Engine.Frame Engine.World Engine.CursorFrame
-  Engine.Isolation.
+From YP Require Import Base.Str Term.Term Unify.Unify Engine.Deref Engine.Frame Engine.Db Engine.World Engine.CursorFrame
+  Engine.Isolation Engine.Footprint.
 
 Definition is_slot (q : nat) (o : op) : bool :=
   match slot_of o with Some q' => Nat.eqb q' q | None => false end.
@@ -23,12 +27,17 @@ Fixpoint pick (q : nat) (ops : list op) (bs : list obs) : list obs :=
   | _, _ => []
   end.
 
-(* two engine records that agree on the database and on slot q *)
-Definition sim (q : nat) (e1 e2 : engine) : Prop :=
-  edb e1 = edb e2 /\ aget Nat.eqb q (cursors e1) = aget Nat.eqb q (cursors e2).
-
-Lemma sim_refl q e : sim q e e.
-Proof. split; reflexivity. Qed.
+(* the accesses to the fact store made by one operation (only next and drain run clause bodies) *)
+Definition step_log (fuel n i : nat) (o : op) (e : engine) (h : store) : list ev :=
+  match o with
+  | ONext q => match aget Nat.eqb q (cursors e) with
+               | Some c => snd (fst (cnext fuel (edb e) (ccell n i (cown c)) h c))
+               | None => [] end
+  | ODrain q => match aget Nat.eqb q (cursors e) with
+                | Some c => snd (fst (cdrain fuel fuel (edb e) (ccell n i (cown c)) h c [] []))
+                | None => [] end
+  | _ => []
+  end.
 
 Section Slots.
 Variables n i : nat.
@@ -40,44 +49,32 @@ Definition sinv (e : engine) (h : store) : Prop :=
   forall q c, aget Nat.eqb q (cursors e) = Some c ->
     cgood (PQ q) c /\ forall k, PQ q (ccell n i (cown c) k) = true.
 
-(* an operation on slot q reads the engine record only through its database and slot q *)
-Lemma qstep_sim fuel o q e1 e2 h e1' h' ob : slot_of o = Some q -> sim q e1 e2 ->
-  estep fuel n i o e1 h = (e1', h', ob) ->
-  exists e2', estep fuel n i o e2 h = (e2', h', ob) /\ sim q e1' e2'.
-Proof.
-  intros So [Ed Ec] E.
-  destruct o as [nm|app nm args|nm args|nm ar rows|ov script| |q0 nm args|q0|q0|q0|ts]; try discriminate;
-    inversion So; subst q0; cbn [estep] in *; rewrite <- Ec; try rewrite <- Ed;
-    destruct (aget Nat.eqb q (cursors e1)) as [c|] eqn:Eq;
-    try (inversion E; subst; eexists; split; [reflexivity|split; congruence]).
-  - destruct (cnext fuel (edb e1) (ccell n i (cown c)) h c) as [[[c1 h1] r] nm].
-    inversion E; subst. eexists. split; [reflexivity|].
-    split; [destruct e1, e2; exact Ed|]. destruct e1, e2; cbn. rewrite !aget_aset_eq. reflexivity.
-  - destruct (cclose h c) as [c1 h1].
-    inversion E; subst. eexists. split; [reflexivity|].
-    split; [destruct e1, e2; exact Ed|]. destruct e1, e2; cbn. rewrite !aget_aset_eq. reflexivity.
-  - destruct (cdrain fuel fuel (edb e1) (ccell n i (cown c)) h c [] []) as [[[[c1 h1] answers] err] nm].
-    inversion E; subst. eexists. split; [reflexivity|].
-    split; [destruct e1, e2; exact Ed|]. destruct e1, e2; cbn. rewrite !aget_aset_eq. reflexivity.
-Qed.
-
 (* one operation on slot q0 in the middle of the others *)
 Lemma qstep_local fuel o q0 e h e' h' ob : slot_of o = Some q0 -> sinv e h ->
   estep fuel n i o e h = (e', h', ob) ->
   estep fuel n i o e (fP (PQ q0) h) = (e', fP (PQ q0) h', ob)
-  /\ sinv e' h' /\ edb e' = edb e
+  /\ step_log fuel n i o e (fP (PQ q0) h) = step_log fuel n i o e h
+  /\ sinv e' h'
   /\ (forall q, q <> q0 -> aget Nat.eqb q (cursors e') = aget Nat.eqb q (cursors e))
   /\ (forall q, q <> q0 -> fP (PQ q) h' = fP (PQ q) h).
 Proof.
   intros So [HC HQ] E.
-  destruct (qop_frame (PQ q0) n i fuel o q0 e h e' h' ob So (HC q0) (HQ q0) E) as [A [EN [C1 [N1 [Ed [_ M]]]]]].
+  destruct (qop_frame (PQ q0) n i fuel o q0 e h e' h' ob So (HC q0) (HQ q0) E) as [A [EN [C1 [N1 [_ M]]]]].
   assert (Hget : forall q, q <> q0 -> aget Nat.eqb q (cursors e') = aget Nat.eqb q (cursors e)).
   { intros q Nq. destruct (aget Nat.eqb q0 (cursors e)) as [c|].
     - destruct M as [c' [Ec _]]. rewrite Ec. apply aget_aset_neq. auto.
     - subst. reflexivity. }
   assert (D : forall q, q <> q0 -> forall v, PQ q v = true -> PQ q0 v = false).
   { intros q Nq v Hv. apply (PQ_disj q q0 v Nq Hv). }
-  refine (conj A (conj _ (conj Ed (conj Hget _)))).
+  assert (EL : step_log fuel n i o e (fP (PQ q0) h) = step_log fuel n i o e h).
+  { destruct o as [nm|app nm args|nm args|nm ar rows|ov script| |q1 nm args|q1|q1|q1|ts]; try reflexivity;
+      inversion So; subst q1; cbn [step_log]; destruct (aget Nat.eqb q0 (cursors e)) as [c|] eqn:Eq; try reflexivity;
+      destruct (HQ q0 c Eq) as [G Hf].
+    - destruct (cnext fuel (edb e) (ccell n i (cown c)) h c) as [[[[c1 h1] r] lg] d1] eqn:E1.
+      destruct (@cnext_frame (PQ q0) _ Hf fuel (edb e) _ _ _ _ _ _ _ (HC q0) G E1) as [A1 _]. rewrite A1. reflexivity.
+    - destruct (cdrain fuel fuel (edb e) (ccell n i (cown c)) h c [] []) as [[[[[c1 h1] ans] err] lg] d1] eqn:E1.
+      destruct (cdrain_frame _ _ Hf _ _ _ _ _ _ _ _ _ _ _ _ _ (HC q0) G E1) as [A1 _]. rewrite A1. reflexivity. }
+  refine (conj A (conj EL (conj _ (conj Hget _)))).
   - split.
     + intros q. destruct (Nat.eq_dec q q0) as [->|Nq]; [exact C1|].
       apply (@closed_other (PQ q0) (PQ q) h h'); auto.
@@ -91,43 +88,145 @@ Proof.
   - intros q Nq. apply (@fP_disjoint (PQ q0) (PQ q)); auto. apply D; exact Nq.
 Qed.
 
-Theorem slots_alone fuel : forall ops e h e' h' bs,
-  Forall qop ops -> sinv e h -> erun n i fuel ops e h = (e', h', bs) ->
-  sinv e' h' /\
-  forall q ea, sim q e ea ->
-    exists ea', erun n i fuel (filter (is_slot q) ops) ea (fP (PQ q) h) = (ea', fP (PQ q) h', pick q ops bs)
-                /\ sim q e' ea'.
+Section Foot.
+Variable K : fkey -> bool.
+
+(* two engine records whose fact stores agree on K (same definitions) and that hold the same generator in slot q *)
+Definition simK (q : nat) (e1 e2 : engine) : Prop :=
+  dbK K (edb e1) (edb e2) /\ aget Nat.eqb q (cursors e1) = aget Nat.eqb q (cursors e2).
+
+Lemma simK_refl q e : simK q e e.
+Proof. split; [apply dbK_refl|reflexivity]. Qed.
+
+(* an operation on slot q that touches only keys of K reads the engine record only through slot q and the K part of
+   the fact store *)
+Lemma qstep_sim fuel o q e1 e2 h e1' h' ob : slot_of o = Some q -> simK q e1 e2 ->
+  estep fuel n i o e1 h = (e1', h', ob) -> Forall (inK K) (step_log fuel n i o e1 h) ->
+  exists e2', estep fuel n i o e2 h = (e2', h', ob) /\ simK q e1' e2'.
 Proof.
-  induction ops as [|o r IH]; intros e h e' h' bs F I E.
-  - cbn [erun] in E. inversion E; subst. split; [exact I|]. intros q ea S. exists ea. split; [reflexivity|exact S].
-  - cbn [erun] in E.
-    destruct (estep fuel n i o e h) as [[e1 h1] ob] eqn:E1.
+  intros So [Ed Ec] E HL.
+  destruct o as [nm|app nm args|nm args|nm ar rows|ov script| |q0 nm args|q0|q0|q0|ts]; try discriminate;
+    inversion So; subst q0; cbn [estep step_log] in *; rewrite <- Ec;
+    destruct (aget Nat.eqb q (cursors e1)) as [c|] eqn:Eq;
+    try (inversion E; subst; eexists; split; [reflexivity|split; [exact Ed|congruence]]).
+  - destruct (cnext fuel (edb e1) (ccell n i (cown c)) h c) as [[[[c1 h1] r] lg] d1] eqn:E1. cbn [fst snd] in HL.
+    destruct (cnext_agree K fuel (edb e1) (edb e2) _ h c _ _ _ _ _ Ed E1 HL) as [d2 [E2 Hd]]. rewrite E2.
+    inversion E; subst. eexists. split; [reflexivity|].
+    split; [destruct e1, e2; exact Hd|]. destruct e1, e2; cbn. rewrite !aget_aset_eq. reflexivity.
+  - destruct (cclose h c) as [c1 h1].
+    inversion E; subst. eexists. split; [reflexivity|].
+    split; [destruct e1, e2; exact Ed|]. destruct e1, e2; cbn. rewrite !aget_aset_eq. reflexivity.
+  - destruct (cdrain fuel fuel (edb e1) (ccell n i (cown c)) h c [] []) as [[[[[c1 h1] answers] err] lg] d1] eqn:E1.
+    cbn [fst snd] in HL.
+    destruct (cdrain_agree K _ _ _ _ _ _ _ _ _ _ _ _ _ _ _ Ed E1 HL) as [d2 [E2 Hd]]. rewrite E2.
+    inversion E; subst. eexists. split; [reflexivity|].
+    split; [destruct e1, e2; exact Hd|]. destruct e1, e2; cbn. rewrite !aget_aset_eq. reflexivity.
+Qed.
+
+(* an operation on a slot all of whose writes are outside K leaves the store as it was on K *)
+Lemma qstep_writes fuel o q e h e' h' ob : slot_of o = Some q ->
+  estep fuel n i o e h = (e', h', ob) -> Forall (wrOut K) (step_log fuel n i o e h) -> dbK K (edb e) (edb e').
+Proof.
+  intros So E HL.
+  destruct o as [nm|app nm args|nm args|nm ar rows|ov script| |q0 nm args|q0|q0|q0|ts]; try discriminate;
+    inversion So; subst q0; cbn [estep step_log] in *;
+    destruct (aget Nat.eqb q (cursors e)) as [c|] eqn:Eq;
+    try (inversion E; subst; apply dbK_refl).
+  - destruct (cnext fuel (edb e) (ccell n i (cown c)) h c) as [[[[c1 h1] r] lg] d1] eqn:E1. cbn [fst snd] in HL.
+    pose proof (cnext_writes K _ _ _ _ _ _ _ _ _ _ E1 HL) as W. inversion E; subst. destruct e; exact W.
+  - destruct (cdrain fuel fuel (edb e) (ccell n i (cown c)) h c [] []) as [[[[[c1 h1] answers] err] lg] d1] eqn:E1.
+    cbn [fst snd] in HL.
+    pose proof (cdrain_writes K _ _ _ _ _ _ _ _ _ _ _ _ _ _ E1 HL) as W. inversion E; subst. destruct e; exact W.
+Qed.
+
+(* the footprint condition on a run, for slot q: its steps touch only K, the steps on the other slots write only
+   outside K (read off the logs of the steps of this run) *)
+Fixpoint foot_ok (q : nat) (fuel : nat) (ops : list op) (e : engine) (h : store) : Prop :=
+  match ops with
+  | [] => True
+  | o :: r =>
+      (if is_slot q o then Forall (inK K) (step_log fuel n i o e h) else Forall (wrOut K) (step_log fuel n i o e h))
+      /\ foot_ok q fuel r (fst (fst (estep fuel n i o e h))) (snd (fst (estep fuel n i o e h)))
+  end.
+
+Theorem slots_alone_K fuel q : forall ops e h e' h' bs,
+  Forall qop ops -> sinv e h -> erun n i fuel ops e h = (e', h', bs) -> foot_ok q fuel ops e h ->
+  sinv e' h' /\
+  forall ea, simK q e ea ->
+    exists ea', erun n i fuel (filter (is_slot q) ops) ea (fP (PQ q) h) = (ea', fP (PQ q) h', pick q ops bs)
+                /\ simK q e' ea'.
+Proof.
+  induction ops as [|o r IH]; intros e h e' h' bs F I E FO.
+  - cbn [erun] in E. inversion E; subst. split; [exact I|]. intros ea S. exists ea. split; [reflexivity|exact S].
+  - cbn [erun] in E. cbn [foot_ok] in FO. destruct FO as [FO1 FO2].
+    destruct (estep fuel n i o e h) as [[e1 h1] ob] eqn:E1. cbn [fst snd] in FO2.
     destruct (erun n i fuel r e1 h1) as [[e2 h2] obs2] eqn:E2.
     inversion E; subst; clear E.
     pose proof (Forall_inv F) as Fo. pose proof (Forall_inv_tail F) as Fr.
     destruct (slot_of o) as [q0|] eqn:So; [|exfalso; apply Fo; exact So].
-    destruct (qstep_local fuel o q0 e h e1 h1 ob So I E1) as [A [I1 [Ed [Hget HP]]]].
-    destruct (IH e1 h1 e' h' obs2 Fr I1 E2) as [I2 Hrest].
-    split; [exact I2|]. intros q ea S.
+    destruct (qstep_local fuel o q0 e h e1 h1 ob So I E1) as [A [EL [I1 [Hget HP]]]].
+    destruct (IH e1 h1 e' h' obs2 Fr I1 E2 FO2) as [I2 Hrest].
+    split; [exact I2|]. intros ea S.
     assert (Es : is_slot q o = Nat.eqb q0 q) by (unfold is_slot; rewrite So; reflexivity).
-    cbn [filter pick]. rewrite Es.
-    destruct (Nat.eqb_spec q0 q) as [->|Nq].
-    + destruct (qstep_sim fuel o q e ea (fP (PQ q) h) e1 (fP (PQ q) h1) ob So S A) as [ea1 [Ea S1]].
-      destruct (Hrest q ea1 S1) as [ea' [R' S']]. exists ea'. split; [|exact S'].
+    cbn [filter pick]. rewrite Es in FO1 |- *. clear Es.
+    destruct (Nat.eqb_spec q0 q) as [Eq0|Nq]; [subst q0|].
+    + rewrite <- EL in FO1.
+      destruct (qstep_sim fuel o q e ea (fP (PQ q) h) e1 (fP (PQ q) h1) ob So S A FO1) as [ea1 [Ea S1]].
+      destruct (Hrest ea1 S1) as [ea' [R' S']]. exists ea'. split; [|exact S'].
       cbn [erun]. rewrite Ea, R'. reflexivity.
-    + assert (S1 : sim q e1 ea).
-      { destruct S as [Sd Sc]. split; [congruence|]. rewrite (Hget q (not_eq_sym Nq)). exact Sc. }
-      destruct (Hrest q ea S1) as [ea' [R' S']]. exists ea'. split; [|exact S'].
+    + assert (S1 : simK q e1 ea).
+      { destruct S as [Sd Sc]. split.
+        - eapply dbK_trans; [|exact Sd]. apply dbK_sym. exact (qstep_writes fuel o q0 e h e1 h1 ob So E1 FO1).
+        - rewrite (Hget q (not_eq_sym Nq)). exact Sc. }
+      destruct (Hrest ea S1) as [ea' [R' S']]. exists ea'. split; [|exact S'].
       rewrite (HP q (not_eq_sym Nq)) in R'. exact R'.
 Qed.
 
 (* the form of the property text: the answers seen on slot q are the answers of q run alone *)
-Corollary same_engine_slots fuel ops e h q : Forall qop ops -> sinv e h ->
+Corollary same_engine_slots_K fuel ops e h q : Forall qop ops -> sinv e h -> foot_ok q fuel ops e h ->
   pick q ops (snd (erun n i fuel ops e h)) = snd (erun n i fuel (filter (is_slot q) ops) e (fP (PQ q) h)).
 Proof.
-  intros F I. destruct (erun n i fuel ops e h) as [[e' h'] bs] eqn:E.
-  destruct (slots_alone fuel ops e h e' h' bs F I E) as [_ H].
-  destruct (H q e (sim_refl q e)) as [ea' [R _]]. rewrite R. reflexivity.
+  intros F I FO. destruct (erun n i fuel ops e h) as [[e' h'] bs] eqn:E.
+  destruct (slots_alone_K fuel q ops e h e' h' bs F I E FO) as [_ H].
+  destruct (H e (simK_refl q e)) as [ea' [R _]]. rewrite R. reflexivity.
+Qed.
+
+End Foot.
+
+(* read-only queries: no step of the run writes the fact store *)
+Fixpoint nowrite (fuel : nat) (ops : list op) (e : engine) (h : store) : Prop :=
+  match ops with
+  | [] => True
+  | o :: r =>
+      Forall (fun x => ewr x = false) (step_log fuel n i o e h)
+      /\ nowrite fuel r (fst (fst (estep fuel n i o e h))) (snd (fst (estep fuel n i o e h)))
+  end.
+
+Lemma nowrite_foot fuel q : forall ops e h, nowrite fuel ops e h -> foot_ok (fun _ => true) q fuel ops e h.
+Proof.
+  induction ops as [|o r IH]; intros e h H; cbn [nowrite foot_ok] in *; [exact I|].
+  destruct H as [H1 H2]. split; [|apply IH; exact H2].
+  destruct (is_slot q o).
+  - apply Forall_forall. intros x _. reflexivity.
+  - eapply Forall_impl; [|exact H1]. intros x Hx Hw. congruence.
+Qed.
+
+Theorem slots_alone fuel : forall ops e h e' h' bs,
+  Forall qop ops -> sinv e h -> erun n i fuel ops e h = (e', h', bs) -> nowrite fuel ops e h ->
+  sinv e' h' /\
+  forall q ea, simK (fun _ => true) q e ea ->
+    exists ea', erun n i fuel (filter (is_slot q) ops) ea (fP (PQ q) h) = (ea', fP (PQ q) h', pick q ops bs)
+                /\ simK (fun _ => true) q e' ea'.
+Proof.
+  intros ops e h e' h' bs F I E NW. split.
+  - exact (proj1 (slots_alone_K (fun _ => true) fuel 0 ops e h e' h' bs F I E (nowrite_foot fuel 0 ops e h NW))).
+  - intros q. exact (proj2 (slots_alone_K (fun _ => true) fuel q ops e h e' h' bs F I E (nowrite_foot fuel q ops e h NW))).
+Qed.
+
+Corollary same_engine_slots fuel ops e h q : Forall qop ops -> sinv e h -> nowrite fuel ops e h ->
+  pick q ops (snd (erun n i fuel ops e h)) = snd (erun n i fuel (filter (is_slot q) ops) e (fP (PQ q) h)).
+Proof.
+  intros F I NW. apply (same_engine_slots_K (fun _ => true)); auto. apply nowrite_foot. exact NW.
 Qed.
 
 End Slots.
